@@ -39,6 +39,8 @@ struct Out<'a> {
   /// kind of the enclosing node for `name` nodes (tparam, member, toplevel, param, P.Id, field, ...)
   /// or the node's own kind (E.LocalId, E.ClassId)
   idents: Vec<(Position, String, bool, String)>,
+  /// locations of literal expressions (hover on them answers with the expression's own range)
+  literals: Vec<Location>,
   stack: Vec<(usize, String)>,
 }
 
@@ -241,6 +243,7 @@ impl Out<'_> {
   fn expr(&mut self, d: usize, e: &expr::E<()>) {
     match e {
       expr::E::Literal(c, _) => {
+        self.literals.push(c.loc);
         self.node(d, "E.Literal", &c.loc);
         self.cm("lead", c.associated_comments);
       }
@@ -438,23 +441,28 @@ impl Out<'_> {
   }
 }
 
-fn parse_and_walk(text: &str, heap: &mut Heap) -> (usize, Vec<String>, Vec<(Position, String, bool, String)>, Vec<Location>) {
+#[allow(clippy::type_complexity)]
+fn parse_and_walk(
+  text: &str,
+  heap: &mut Heap,
+) -> (usize, Vec<String>, Vec<(Position, String, bool, String)>, Vec<Location>, Vec<Location>) {
   let mut error_set = ErrorSet::new();
   let module =
     samlang_parser::parse_source_module_from_text(text, ModuleReference::DUMMY, heap, &mut error_set);
   let syn = error_set.errors().iter().filter(|e| e.is_syntax_error()).count();
-  let mut o = Out { heap, comments: &module.comment_store, items: Vec::new(), idents: Vec::new(), stack: Vec::new() };
+  let mut o = Out { heap, comments: &module.comment_store, items: Vec::new(), idents: Vec::new(), literals: Vec::new(), stack: Vec::new() };
   o.module(&module);
   let errs: Vec<Location> = error_set.errors().iter().map(|e| e.location).collect();
   for l in &errs {
     o.node(0, "error", l);
   }
-  (syn, o.items, o.idents, errs)
+  let lits = o.literals.clone();
+  (syn, o.items, o.idents, errs, lits)
 }
 
 fn walk(text: &str) -> String {
   let mut heap = Heap::new();
-  let (syn, mut items, _, _) = parse_and_walk(text, &mut heap);
+  let (syn, mut items, _, _, _) = parse_and_walk(text, &mut heap);
   // the comment tokens of the text with their spans (`k:<L|B|D><hextext>:<span>`): the ground truth
   // the comments attached to AST nodes are matched against
   let mut h2 = Heap::new();
@@ -535,7 +543,7 @@ impl Svc {
     self.state.update(vec![(m, text.to_string())]);
     self.texts.insert(m, text.to_string());
     let mut scratch_heap = Heap::new();
-    let (syn, _, idents, _) = parse_and_walk(text, &mut scratch_heap);
+    let (syn, _, idents, _, literals) = parse_and_walk(text, &mut scratch_heap);
     let nerr = self.state.get_errors(&m).len();
     let mut items: Vec<String> = Vec::new();
     let mut seen = std::collections::HashSet::new();
@@ -587,6 +595,22 @@ impl Svc {
           pos.0,
           pos.0,
           pos.0,
+          h.map(|h| self.loc_str(&h.location)).unwrap_or("none".into())
+        ));
+      }
+    }
+    // hover on literals: an expression result, its range must be the literal's own span
+    let lit_stride = if literals.len() > max_pos { literals.len().div_ceil(max_pos.max(1)) } else { 1 };
+    for (i, l) in literals.iter().enumerate() {
+      if i % lit_stride != 0 || l.start.0 != l.end.0 || l.end.1 == l.start.1 {
+        continue;
+      }
+      for c in [l.start.1, l.end.1 - 1] {
+        let h = samlang_services::query::hover(&self.state, &m, Position(l.start.0, c));
+        items.push(format!(
+          "hoverlit@{}.{c}:{}={}",
+          l.start.0,
+          span(l),
           h.map(|h| self.loc_str(&h.location)).unwrap_or("none".into())
         ));
       }
